@@ -48,7 +48,10 @@ MOD = st.fixed_dictionaries({'target': st.sampled_from(['file', 'file', 'file', 
 
 def strategy(tier):
     w = {'mixed': 4, 'growshrink': 4, 'deep': 1, 'links': 5, 'boot': 1, 'hybrid': 0, 'exactfill': 4}
-    return st.tuples(gen.any_profile(reopen_ok=False, weights=w), st.lists(MOD, min_size=1, max_size=3))
+    mods = st.lists(MOD, min_size=1, max_size=3)
+    # a third of the cases modify an independently re-mastered ("foreign") version of the image (vf/indep/remaster.py)
+    foreign = st.integers(0, 1 << 30).map(lambda x: [{'foreign': gen.foreign_style(x)}])
+    return st.tuples(gen.any_profile(reopen_ok=False, weights=w), st.one_of(mods, mods, st.builds(lambda f, m: f + m, foreign, mods)))
 
 
 def new_length(kind, old):
@@ -99,6 +102,19 @@ def oracle(program, mods):
         run.stats['c01_domain'] += 1
         return run, failures
     m = run.model
+    mods = list(mods or [])
+    if mods and 'foreign' in mods[0]:
+        style = mods.pop(0)['foreign']
+        if not m.has['udf'] and m.boot is None and m.hybrid is None:
+            from vf.indep import remaster
+            try:
+                alt = remaster.remaster(img0, style)
+            except Exception:  # noqa  (harness module; counted, never a violation)
+                alt = None
+                run.c17.add('remaster-failed')
+            if alt is not None:
+                img0 = alt
+                run.c17.add('foreign-image')
     backing = io.BytesIO(img0)
     iso = pycdlib.PyCdlib()
     try:
